@@ -7744,6 +7744,17 @@ def main():
         status["rice"] = f"translator cannot read {e}"
     except Exception as e:  # fail closed on anything the parser did not anticipate
         status["rice"] = f"translator cannot read rice.rs/arrayutils.rs: internal error {type(e).__name__}: {e}"
+    try:  # hook for parser (tools/translate_parser.py: component/parser.rs -> Gen/Parser.lean)
+        import translate_parser
+        for dep in ("constants", "headers", "writer", "verify", "decode"):
+            if status[dep] != "ok":
+                fail(f"parser.rs: part `{dep}` failed (Gen/Parser.lean imports its output)")
+        write("Parser.lean", translate_parser.emit_parser(sys.modules[__name__], status, (order, consts, values)))
+        status["parser"] = "ok"
+    except Unreadable as e:
+        status["parser"] = f"translator cannot read {e}"
+    except Exception as e:  # fail closed on anything the parser did not anticipate
+        status["parser"] = f"translator cannot read parser.rs: internal error {type(e).__name__}: {e}"
     os.makedirs(os.path.join(ROOT, ".cache"), exist_ok=True)
     json.dump(status, open(os.path.join(ROOT, ".cache", "translate_status.json"), "w"), indent=1)
     bad = [v for v in status.values() if v != "ok"]
